@@ -16,6 +16,7 @@ ToSet(q) == {q[i] : i \in 1..Len(q)}
 ObsSt == [active |-> Ev.st.active, mapped |-> ToSet(Ev.st.mapped), open |-> ToSet(Ev.st.open),
           putEpoch |-> Ev.st.putEpoch, cache |-> ToSet(Ev.st.cache), db |-> ToSet(Ev.st.db),
           epochs |-> ToSet(Ev.st.epochs), has |-> ToSet(Ev.st.has), sf |-> ToSet(Ev.st.sf), gfe |-> ToSet(Ev.st.gfe)]
+ObsIn == [f \in DOMAIN Ev.in |-> IF f = "ks" THEN ToSet(Ev.in[f]) ELSE Ev.in[f]]
 ObsOut == [f \in DOMAIN Ev.out |-> IF f = "kv" THEN ToSet(Ev.out[f]) ELSE Ev.out[f]]
 Matches == (\A f \in DOMAIN Ev.out : hist'[1].out[f] = ObsOut[f]) /\ hist'[1].st = ObsSt
 
@@ -60,7 +61,7 @@ ObsVars ==
     /\ db' = ObsDb /\ open' = ObsSt.open /\ mapped' = ObsSt.mapped /\ active' = ObsSt.active
     /\ cache' = ObsCache /\ putEpoch' = ObsSt.putEpoch
     /\ UNCHANGED cfgv
-    /\ hist' = <<[a |-> Ev.a, in |-> Ev.in, out |-> ObsOut, st |-> ObsSt]>>
+    /\ hist' = <<[a |-> Ev.a, in |-> ObsIn, out |-> ObsOut, st |-> ObsSt]>>
 Keep == UNCHANGED <<prep, shut>>
 OPut    == IsEvent("Put") /\ ObsVars /\ Keep /\ GhostPut(Ev.in.k, Ev.in.v, PutLanding, Ev.out.ok)
 OPutIn  == IsEvent("PutInEpoch") /\ ObsVars /\ Keep /\ GhostPut(Ev.in.k, Ev.in.v, Ev.in.e, Ev.out.ok)
